@@ -35,6 +35,8 @@ import json
 import os
 import typing
 
+from .core import clone as _clone
+
 BASELINE_FILE = os.path.join(os.path.dirname(os.path.abspath(__file__)), "baseline.json")
 _BUILTINS = set(dir(builtins))
 
@@ -345,16 +347,16 @@ def _is_const(e, v):
 
 def _ifexp(test, a, b):
   """`a if test else b`, written with and / or / not when a or b is a boolean constant."""
-  neg = ast.UnaryOp(op=ast.Not(), operand=copy.deepcopy(test))
+  neg = ast.UnaryOp(op=ast.Not(), operand=_clone(test))
   if _is_const(a, True):
-    return b if _is_const(b, True) else (copy.deepcopy(test) if _is_const(b, False) else ast.BoolOp(op=ast.Or(), values=[copy.deepcopy(test), b]))
+    return b if _is_const(b, True) else (_clone(test) if _is_const(b, False) else ast.BoolOp(op=ast.Or(), values=[_clone(test), b]))
   if _is_const(a, False):
     return neg if _is_const(b, True) else (b if _is_const(b, False) else ast.BoolOp(op=ast.And(), values=[neg, b]))
   if _is_const(b, False):
-    return ast.BoolOp(op=ast.And(), values=[copy.deepcopy(test), a])
+    return ast.BoolOp(op=ast.And(), values=[_clone(test), a])
   if _is_const(b, True):
     return ast.BoolOp(op=ast.Or(), values=[neg, a])
-  return ast.IfExp(test=copy.deepcopy(test), body=a, orelse=b)
+  return ast.IfExp(test=_clone(test), body=a, orelse=b)
 
 
 def body_as_expr(stmts) -> typing.Optional[ast.AST]:
@@ -363,7 +365,7 @@ def body_as_expr(stmts) -> typing.Optional[ast.AST]:
     return None
   st = stmts[0]
   if isinstance(st, ast.Return):
-    return copy.deepcopy(st.value) if st.value is not None else None
+    return _clone(st.value) if st.value is not None else None
   if isinstance(st, ast.If):
     a = body_as_expr(st.body)
     if a is None:
@@ -416,7 +418,7 @@ class _Subst(ast.NodeTransformer):
 
   def visit_Name(self, n):
     if n.id in self.mapping and isinstance(n.ctx, ast.Load):
-      return copy.deepcopy(self.mapping[n.id])
+      return _clone(self.mapping[n.id])
     return n
 
 
@@ -458,14 +460,14 @@ def _assigned_in(stmts, name):
 
 def _instantiate(h, binding):
   """(prelude assignments, body copy with parameters substituted)."""
-  body = copy.deepcopy(_strip_doc(h.body))
+  body = _clone(_strip_doc(h.body))
   prelude, mapping = [], {}
   for p, arg in binding.items():
     simple = isinstance(arg, (ast.Name, ast.Constant)) or (isinstance(arg, ast.Attribute) and all(isinstance(x, (ast.Attribute, ast.Name)) for x in ast.walk(arg) if not isinstance(x, ast.expr_context)))
     if _assigned_in(body, p) or not simple:
       if isinstance(arg, ast.Name) and arg.id == p:
         continue
-      a = ast.Assign(targets=[ast.Name(id=p, ctx=ast.Store())], value=copy.deepcopy(arg))
+      a = ast.Assign(targets=[ast.Name(id=p, ctx=ast.Store())], value=_clone(arg))
       ast.copy_location(a, arg)
       ast.fix_missing_locations(a)
       prelude.append(a)
@@ -573,7 +575,7 @@ def inline_call(h, kind, call, is_method_call) -> bool:
       targets = stmt.targets if isinstance(stmt, ast.Assign) else [stmt.target]
 
       def make(e):
-        a = ast.Assign(targets=[copy.deepcopy(t) for t in targets], value=e)
+        a = ast.Assign(targets=[_clone(t) for t in targets], value=e)
         return a
       _rewrite_returns(body, make)
       for st in body:
@@ -608,6 +610,139 @@ def _calls_to(tree, name, cls_name):
 
 
 # ---------------------------------------------------------------------------------------
+# E. locals the reference does not have ("introduce variable") are inlined again
+# ---------------------------------------------------------------------------------------
+
+_MUTATORS = {"append", "extend", "insert", "add", "update", "pop", "popitem", "remove", "discard", "clear", "setdefault", "sort", "reverse", "write", "push_child", "push_children",
+             "set_style", "set_begin", "set_end", "set_region", "set_text", "set_id", "set_lang", "set_space", "add_animation_step", "remove_child", "remove_children", "set"}
+
+
+def _own_walk(fnode):
+  for st in fnode.body:
+    yield from _walk_same_func(st)
+
+
+def inline_new_locals(q, fn, base_locals, log, name):
+  known = set(base_locals)
+  params = {a.arg for a in fn.args.posonlyargs + fn.args.args + fn.args.kwonlyargs}
+  binds: typing.Dict[str, typing.List[ast.AST]] = {}
+  other_stores = set()
+  for n in _own_walk(fn):
+    if isinstance(n, ast.Assign) and len(n.targets) == 1 and isinstance(n.targets[0], ast.Name):
+      binds.setdefault(n.targets[0].id, []).append(n)
+    elif isinstance(n, ast.AnnAssign) and isinstance(n.target, ast.Name) and n.value is not None:
+      binds.setdefault(n.target.id, []).append(n)
+    elif isinstance(n, ast.Name) and isinstance(n.ctx, (ast.Store, ast.Del)):
+      pa = getattr(n, "_parent", None)
+      if not (isinstance(pa, (ast.Assign, ast.AnnAssign)) and (getattr(pa, "targets", [None])[0] is n or getattr(pa, "target", None) is n)):
+        other_stores.add(n.id)
+  done = []
+  for v, sts in binds.items():
+    if v in known or v in params or v in other_stores or len(sts) != 1:
+      continue
+    st = sts[0]
+    val = st.value
+    if any(isinstance(x, (ast.Yield, ast.YieldFrom, ast.Await, ast.NamedExpr, ast.Lambda, ast.ListComp, ast.List, ast.Dict, ast.Set, ast.DictComp, ast.SetComp)) for x in ast.walk(val)):
+      continue
+    # the statement must sit directly in a statement list (not under a condition that may be skipped: accepted, approximation)
+    uses = [n for n in _own_walk(fn) if isinstance(n, ast.Name) and n.id == v and isinstance(n.ctx, ast.Load)]
+    if not uses or any((u.lineno, u.col_offset) < (st.lineno, st.col_offset) for u in uses if hasattr(u, "lineno")):
+      continue
+    bad = False
+    if len(uses) > 1 and any(isinstance(x, ast.Call) and isinstance(x.func, ast.Name) and x.func.id in ("round", "int", "floor", "ceil", "float", "Fraction", "sorted", "list", "tuple", "set", "dict")
+                             for x in ast.walk(val)):
+      continue      # a value computed once on purpose (rounding, conversion, snapshot of a container) stays a local
+    for u in uses:
+      pa = getattr(u, "_parent", None)
+      if isinstance(pa, ast.Attribute) and isinstance(getattr(pa, "_parent", None), ast.Call) and pa._parent.func is pa and pa.attr in _MUTATORS:
+        bad = True
+      if isinstance(pa, ast.Subscript) and isinstance(pa.ctx, (ast.Store, ast.Del)):
+        bad = True
+      if isinstance(pa, ast.AugAssign) and pa.target is u:
+        bad = True
+    # a local defined from a local that is re-bound later is not stable
+    if bad:
+      continue
+    for u in uses:
+      _replace_expr(u, _clone(val))
+    hold = _holder(st)
+    if hold is not None:
+      lst, i = hold
+      if len(lst) > 1:
+        del lst[i]
+      else:
+        lst[i] = ast.copy_location(ast.Pass(), st)
+    relink(fn)
+    done.append(v)
+  if done:
+    log.append(f"{name}: locals of `{q}` that the reference does not have were inlined ({', '.join(done[:8])})")
+
+
+# ---------------------------------------------------------------------------------------
+# D. idiom normalisation (independent of the reference)
+# ---------------------------------------------------------------------------------------
+
+class _AddK(ast.NodeTransformer):
+  def __init__(self, name, k):
+    self.name, self.k = name, k
+
+  def visit_Name(self, n):
+    if n.id == self.name and isinstance(n.ctx, ast.Load):
+      e = ast.BinOp(left=ast.Name(id=n.id, ctx=ast.Load()), op=ast.Add(), right=ast.Constant(self.k))
+      return ast.fix_missing_locations(ast.copy_location(e, n))
+    return n
+
+
+def _enumerate_start(it):
+  if isinstance(it, ast.Call) and isinstance(it.func, ast.Name) and it.func.id == "enumerate" and it.args:
+    k = None
+    if len(it.args) == 2 and isinstance(it.args[1], ast.Constant) and isinstance(it.args[1].value, int):
+      k = it.args[1].value
+    for kw in it.keywords:
+      if kw.arg == "start" and isinstance(kw.value, ast.Constant) and isinstance(kw.value.value, int):
+        k = kw.value.value
+    return k
+  return None
+
+
+def normalise_idioms(tree, log, name):
+  """`for i, x in enumerate(seq, start=k)` (k != 0) becomes `for i, x in enumerate(seq)` with every read of i
+  replaced by `i + k`: the same values, in the form the reference uses."""
+  n_done = 0
+  for node in ast.walk(tree):
+    gens = []
+    if isinstance(node, ast.For):
+      gens = [(node, node.body + node.orelse)]
+    elif isinstance(node, (ast.ListComp, ast.SetComp, ast.GeneratorExp)):
+      gens = [(g, [node.elt] + g.ifs) for g in node.generators[:1] if len(node.generators) == 1]
+    elif isinstance(node, ast.DictComp):
+      gens = [(g, [node.key, node.value] + g.ifs) for g in node.generators[:1] if len(node.generators) == 1]
+    for g, users in gens:
+      k = _enumerate_start(g.iter)
+      if not k or not (isinstance(g.target, ast.Tuple) and g.target.elts and isinstance(g.target.elts[0], ast.Name)):
+        continue
+      i = g.target.elts[0].id
+      if any(isinstance(x, ast.Name) and x.id == i and isinstance(x.ctx, (ast.Store, ast.Del)) for u in users for x in ast.walk(u)):
+        continue
+      g.iter.args = g.iter.args[:1]
+      g.iter.keywords = [kw for kw in g.iter.keywords if kw.arg != "start"]
+      tr = _AddK(i, k)
+      if isinstance(node, ast.For):
+        node.body = [tr.visit(st) for st in node.body]
+        node.orelse = [tr.visit(st) for st in node.orelse]
+      elif isinstance(node, ast.DictComp):
+        node.key, node.value = tr.visit(node.key), tr.visit(node.value)
+        g.ifs = [tr.visit(x) for x in g.ifs]
+      else:
+        node.elt = tr.visit(node.elt)
+        g.ifs = [tr.visit(x) for x in g.ifs]
+      n_done += 1
+  if n_done:
+    log.append(f"{name}: {n_done} enumerate(..., start=k) loop(s) written as enumerate(...) with index + k")
+    relink(tree)
+
+
+# ---------------------------------------------------------------------------------------
 # driver
 # ---------------------------------------------------------------------------------------
 
@@ -624,6 +759,7 @@ def canonicalise(modules: typing.Dict[str, typing.Any], baseline: typing.Optiona
       continue
     try:
       _canon_module(name, m, base, log, attr_renames)
+      normalise_idioms(m.tree, log, name)
     except Exception as e:   # the pass must never break the analysis
       log.append(f"{name}: canonicalisation skipped ({type(e).__name__}: {e})")
   if attr_renames:
@@ -716,6 +852,10 @@ def _canon_module(name, m, base, log, attr_renames):
       continue
     h, locs, attrs = skeleton(fn, keep, all_attrs_private=in_private_class(q))
     if h != b["h"]:
+      try:
+        inline_new_locals(q, fn, b["locals"], log, name)
+      except Exception as e:
+        log.append(f"{name}: `{q}`: new locals left in place ({type(e).__name__}: {e})")
       continue
     if locs != b["locals"] and len(locs) == len(b["locals"]):
       mapping = {c: r for c, r in zip(locs, b["locals"]) if c != r}
